@@ -50,6 +50,60 @@ def is_const(v):
     return isinstance(v, tuple) and v[0] == "const"
 
 
+# parameter order of library callables whose arguments are often written either way (only the leading parameters that
+# may be given positionally are listed); methods are looked up by their name alone
+KNOWN_SIGNATURES = {
+    "torch.cat": ["tensors", "dim"], "torch.stack": ["tensors", "dim"], "torch.sum": ["input", "dim"], "torch.where": ["condition", "input", "other"],
+    "torch.sqrt": ["input"], "torch.narrow": ["input", "dim", "start", "length"], "torch.zeros_like": ["input"], "torch.ones_like": ["input"],
+    "np.concatenate": ["arrays", "axis"], "np.stack": ["arrays", "axis"], "np.swapaxes": ["a", "axis1", "axis2"], "np.repeat": ["a", "repeats", "axis"],
+    ".sum": ["dim"], ".mean": ["dim"], ".unsqueeze": ["dim"], ".squeeze": ["dim"], ".size": ["dim"], ".narrow": ["dim", "start", "length"],
+    ".select": ["dim", "index"], ".flatten": ["start_dim", "end_dim"], ".repeat": ["repeats", "axis"],
+}
+_EXTERNAL_CACHE = {}
+
+
+def _external_signatures(path):
+    """name -> parameter list for the functions this module imports from other modules of the same package, and
+    alias -> {name -> parameter list} for `from pkg import module as alias` / `import pkg.module as alias`."""
+    key = path
+    if key in _EXTERNAL_CACHE:
+        return _EXTERNAL_CACHE[key]
+    names, aliases = {}, {}
+    try:
+        import os
+
+        root = path[: path.index("/direct/")] if "/direct/" in path else None
+        tree = ast.parse(open(path).read()) if root else None
+
+        def sigs_of(modname):
+            f = os.path.join(root, modname.replace(".", "/"))
+            for cand in (f + ".py", os.path.join(f, "__init__.py")):
+                if os.path.isfile(cand):
+                    t = ast.parse(open(cand).read())
+                    return {n.name: [a.arg for a in n.args.posonlyargs + n.args.args] for n in t.body if isinstance(n, ast.FunctionDef)}
+            return None
+
+        for n in (tree.body if tree else []):
+            if isinstance(n, ast.ImportFrom) and n.module and n.module.startswith("direct") and n.level == 0:
+                sg = sigs_of(n.module)
+                for a in n.names:
+                    if sg and a.name in sg:
+                        names[a.asname or a.name] = sg[a.name]
+                    sub = sigs_of(n.module + "." + a.name)
+                    if sub is not None:
+                        aliases[a.asname or a.name] = sub
+            if isinstance(n, ast.Import):
+                for a in n.names:
+                    if a.name.startswith("direct") and a.asname:
+                        sub = sigs_of(a.name)
+                        if sub is not None:
+                            aliases[a.asname] = sub
+    except Exception:  # pragma: no cover
+        pass
+    _EXTERNAL_CACHE[key] = (names, aliases)
+    return names, aliases
+
+
 class Exec:
     """One symbolic execution context (a module, optionally a class for `self.` / `cls.` / `ClassName.` helpers).
 
@@ -414,6 +468,7 @@ class Exec:
             if not items:
                 return TRUE if op == "and" else FALSE
             return items[0] if len(items) == 1 else ("bool", op, tuple(items))
+        args, kwargs = self.positional(f, args, kwargs)
         if f in self.callhooks:
             r = self.callhooks[f](args, kwargs)
             if r is not None:
@@ -432,6 +487,52 @@ class Exec:
             self.fresh_count[0] += 1
             kwargs = kwargs + (("#id", const(self.fresh_count[0])),)
         return ("call", f, args, kwargs)
+
+    def signature(self, f):
+        """Parameter names (in order, without self) of the callee, where known: a function / method of this module, a
+        function imported from another module of the package, or a library callable of KNOWN_SIGNATURES."""
+        if f[0] == "sym":
+            if f[1] in self.funcs:
+                fn = self.funcs[f[1]]
+                return [a.arg for a in fn.args.posonlyargs + fn.args.args]
+            names, _al = _external_signatures(self.path)
+            return names.get(f[1])
+        if f[0] == "attr":
+            if f[1][0] == "sym" and f[1][1] in ("self", "cls") and self.cls:
+                fn, _o = self._method(self.cls, f[2])
+                if fn is not None:
+                    ps = [a.arg for a in fn.args.posonlyargs + fn.args.args]
+                    deco = [ast.unparse(d) for d in fn.decorator_list]
+                    return ps if "staticmethod" in deco else ps[1:]
+            if f[1][0] == "sym":
+                _n, aliases = _external_signatures(self.path)
+                if f[1][1] in aliases:
+                    return aliases[f[1][1]].get(f[2])
+                if f[1][1] in self.classes:
+                    fn, _o = self._method(f[1][1], f[2])
+                    if fn is not None:
+                        ps = [a.arg for a in fn.args.posonlyargs + fn.args.args]
+                        deco = [ast.unparse(d) for d in fn.decorator_list]
+                        return ps if "staticmethod" in deco else ps[1:]
+            dotted = show(f)
+            if dotted in KNOWN_SIGNATURES:
+                return KNOWN_SIGNATURES[dotted]
+            return KNOWN_SIGNATURES.get("." + f[2])
+        return None
+
+    def positional(self, f, args, kwargs):
+        """Keyword arguments moved to their positional place when the callee's parameter order is known: f(a, dim=d) and
+        f(a, d) are the same value."""
+        if not kwargs or any(a[0] == "star" for a in args) or any(k == "**" for k, _v in kwargs):
+            return args, kwargs
+        sig = self.signature(f)
+        if not sig:
+            return args, kwargs
+        kw = dict(kwargs)
+        out = list(args)
+        while len(out) < len(sig) and sig[len(out)] in kw:
+            out.append(kw.pop(sig[len(out)]))
+        return tuple(out), tuple((k, v) for k, v in kwargs if k in kw)
 
     def resolve(self, f):
         """(FunctionDef, value bound to the first parameter or None, owning class) of a helper that may be inlined."""
@@ -920,6 +1021,13 @@ def alpha_source(fn):
 
     body = [R().visit(copy.deepcopy(st)) for st in strip_doc(fn.body)]
     return "\n".join(ast.unparse(st) for st in body)
+
+
+def arg(v, i, name):
+    """Argument i of a call value, or the keyword `name` when it was not given positionally (None when absent)."""
+    if len(v[2]) > i:
+        return v[2][i]
+    return dict(v[3]).get(name)
 
 
 def parse_expr(src, env=None):
